@@ -1,9 +1,9 @@
 SPECIFICATION Spec
-CONSTANT N = 6
-CONSTANT K = 3
-CONSTANT Funct = FALSE
+CONSTANT N = 4
+CONSTANT K = 4
+CONSTANT Funct = TRUE
 CONSTANT AsCoded = FALSE
-CONSTANT Inputs = "und"
+CONSTANT Inputs = "orient"
 CONSTANT Lemmas = FALSE
 INVARIANT LibInv
 INVARIANT VisitInv
